@@ -32,14 +32,18 @@ METHODS = {
     "reportluns_small": ([], {"alloclen": 16}, 0xA0, 12, (6, 4)),
     "read10": ([7, 1], {}, 0x28, 10, None),
     "read16": ([2 ** 33 + 7, 1], {}, 0x88, 16, None),
+    "read10_tl0": ([7, 0], {}, 0x28, 10, None),           # TRANSFER LENGTH 0 is a valid request the device must still see
+    "read16_tl0": ([7, 0], {}, 0x88, 16, None),
     "modesense6": ([0x0A], {"alloclen": 48}, 0x1A, 6, (4, 1)),
     "modesense10": ([0x0A], {"alloclen": 48}, 0x5A, 10, (7, 2)),
     "synchronizecache10": ([0, 0], {}, 0x35, 10, None),
     "atapassthrough12": ([4, 2, 1, 1, 0, 0, 0, 1, 0, 0xEC], {}, 0xA1, 12, None),
     "atapassthrough16": ([4, 2, 1, 1, 0, 0, 0, 1, 0, 0xEC], {}, 0x85, 16, None),
+    "readcd": ([16, 2], {"est": 2, "mcsb": 0x17}, 0xBE, 12, None),
+    "readdiscinformation": ([0], {}, 0x51, 10, (7, 2)),
     "raw_execute": ([], {}, 0x00, 6, None),       # s.execute(TestUnitReady(...))
 }
-REAL = {"inquiry_vpd": "inquiry", "reportluns_small": "reportluns"}
+REAL = {"inquiry_vpd": "inquiry", "reportluns_small": "reportluns", "read10_tl0": "read10", "read16_tl0": "read16"}
 OUTCOMES = ["good", "cc5", "cc6", "cc6b", "cc2", "busy", "oserror", "conflict"]
 SENSE = {"cc5": (5, 0x24, 0x00), "cc6": (6, 0x29, 0x00), "cc6b": (6, 0x2A, 0x01), "cc2": (2, 0x04, 0x01)}
 ISCSI_STATUS = {"busy": 0x08, "conflict": 0x18}
@@ -141,11 +145,14 @@ def impl_main():
         dev.opcodes = sbc
         return s, dev
 
+    from pyscsi.pyscsi.scsi_enum_command import mmc
+
     def do_step(s, dev, st, k):
         args, kw, _op, _len, _al = METHODS[st["m"]]
         state["outcomes"] = list(st["outcomes"])
         state["fill"] = lambda n, k=k, kind=st["fill"]: fill_bytes(st["seed"], n, kind)
         state["execs"] = []
+        dev.opcodes = mmc if st["m"] in ("readcd", "readdiscinformation") else sbc
         r = dict()
         signal.setitimer(signal.ITIMER_REAL, 5.0)
         try:
@@ -166,7 +173,8 @@ def impl_main():
                         r["datain_ok"] = bytes(cmd.datain[:n]) == exp and len(cmd.datain) == n
                         if getattr(cmd, "result", None):
                             try:
-                                again = type(cmd).unmarshall_datain(bytearray(exp), **({"evpd": 1} if st["m"] == "inquiry_vpd" else {}))
+                                ukw = {"evpd": 1} if st["m"] == "inquiry_vpd" else ({"lba": 16, "tl": 2, "est": 2, "mcsb": 0x17} if st["m"] == "readcd" else {})
+                                again = type(cmd).unmarshall_datain(bytearray(exp), **ukw)
                                 r["result_ok"] = repr(again) == repr(cmd.result)
                             except Exception as e:  # noqa
                                 r["result_ok"] = "re-decode raised %s" % type(e).__name__
